@@ -161,7 +161,7 @@ fn c13_k<K: Kmer>(c: &mut Case) -> Result<(), String> {
 pub const RULE_C13: &str = "case = random base string (length <K, K..K+3, block-boundary lengths 31/32/33/63/64/65/96/97/128/129, or random <= 200) x one of the 19 K types, read through DnaString, DnaBytes, DnaSlice, forward and reverse-complemented DnaStringSlice at a random backing offset 0-69 (plus a nested slice of each), and Lmer of capacity 1-6 words when it fits; checked: iter_kmers count and items, iter_kmer_exts items and flank masks with a random caller boundary mask, get_kmer at first/last/random and all block-crossing positions (all positions in a quarter of thorough cases), first/last/both_term/term_kmer, kmers_from_bytes/ascii; distinct = hash(K, sequence, offset); non-trivial = length >= K";
 
 pub fn run_c13(ctx: &Ctx) {
-    let per_type = ctx.n(3_000, 150_000);
+    let per_type = ctx.n(15_000, 750_000);
     ctx.run_group("extract", per_type * 19, false, |c| {
         let idx = (c.idx % 19) as usize;
         with_all_k!(idx, K => c13_k::<K>(c))
